@@ -5,6 +5,9 @@ VERIF = os.path.dirname(os.path.dirname(os.path.abspath(__file__)))
 
 # id -> (category, technique, text, note, design_ref)
 CHECKS = {
+    'C09': ('fault_enumeration', 'end-to-end monitoring of the real driver (mpmon) under ASan over model/option/invocation families with output-path fault injection (strace -e inject, .sol path as directory); strict independent .sol parser as oracle',
+            'Valid, infeasible, unsupported, big-M-unbounded and mutated NL inputs x valid/unknown/ill-typed options x -AMPL/wantsol modes x names-file shapes x output faults are run one process each; every run must terminate without signal or sanitizer report and end either in a .sol that parses completely with the NL header\'s dimensions and a code of the right class, or in no .sol with non-zero exit status and a diagnostic; feasibility witnesses from the exact evaluator refute false "infeasible" verdicts.',
+            'strace write-fault injection restricted to the .sol path (confirmed by the (INJECTED) marker); a _GLIBCXX_ASSERTIONS abort counts as a crash; infeasible-by-construction models may legitimately be passed on to the solver', '2/C09'),
     'C12': ('exploration', 'trace monitoring of the real driver (mpmon): recorded SetLinear/QuadraticObjective events judged by an exact independent evaluator through the delivered functional DAG',
             'Random models with 0-4 objectives of mixed sense and linear/quadratic/nonlinear content are run through the real option parser, NL reader and converter for objno unset/0..N+1, multiobj on/off and quadratic objectives accepted or not; the number, order and sense of the delivered objectives, their value at every point of the gridded domain, the rejection of objno > N and the objno echoed in the .sol are checked.',
             'own NL text encoder and exact (Fraction) evaluator; all flat constraint types accepted natively so that auxiliary values follow by forward evaluation; text NL input only', '2/C12'),
